@@ -30,6 +30,10 @@ def obligations(tier):
                                   weight=nn * 20, budget_s=900 if tier == "quick" else 7200, max_paths=200000))
                 obs.append(Ob(f"{spec_name(('ind', name, kw))}/tf={tf}/n={nn}", dict(spec=["ind", name, kw], n=nn, tf=tf, part=("rounded" if name == "TSI" else "all")), INV_UF if name == "ADX" else INV,
                               weight=nn * (20 if name in EXTRA else 1), budget_s=900 if tier == "quick" else 7200, max_paths=200000))
+    # the relations under a candlestick type: they are stated about the candle the reading is stored on (the converted one)
+    for name, kw, w in (("TR", dict(), 1), ("ATR", dict(period=2), 2), ("donchian", dict(period=2), 1), ("KC", dict(period=2), 2)):
+        n = w + 4
+        obs.append(Ob(f"{spec_name(('ind', name, kw))}/Heikin-Ashi candles/n={n}", dict(spec=["ind", name, kw], n=n, tf=None, part="all", extra=dict(candlestick_type="HA")), INV, weight=n * 3, budget_s=300, max_paths=200000))
     # the relations for a stream handed over as capitalised dicts / dicts / lists (the candle 'as given' is the reference)
     for name, kw, w in (("TR", dict(), 1), ("donchian", dict(period=2), 1), ("STOCH", dict(period=2, slow_period=2, smoothing_k=2), 3), ("HLA", dict(), 0), ("BBANDS", dict(period=2), 2), ("OBV", dict(), 0)):
         for feed in ("Dict", "dict", "list"):
